@@ -61,17 +61,20 @@ struct MJ {
     bool operator!=(const MJ& o) const { return !(*this == o); }
 };
 struct mj_member { MJ val; int k; int key() const { return k; } MJ& value() { return val; } const MJ& value() const { return val; } };
-struct MJ::iter { const MJ* owner; int k; mutable mj_member m;
-    iter(const MJ* o, int kk) : owner(o), k(kk) { m.k = kk; }
-    void skip() { if (k == 0 && !owner->hask_(0)) k = 1; if (k == 1 && !owner->hask_(1)) k = 2; }
-    mj_member& operator*() const { if (k == 0) { m.k = 0; m.val = owner->sub_(0); } else if (k == 1) { m.k = 1; m.val = owner->sub_(1); } else m.k = k; return m; }
-    iter& operator++() { ++k; skip(); return *this; }
-    bool operator!=(const iter& o) const { return k != o.k; }
-    bool operator==(const iter& o) const { return k == o.k; } };
+// Iteration is over POSITIONS 0,1 (concrete counters) of the present members, so that a range-for over an object unrolls to at most NKEY iterations during
+// symbolic execution; find() returns a "direct" iterator naming its key.
+struct MJ::iter { const MJ* owner; int p; int direct; mutable mj_member m;
+    iter(const MJ* o, int pp, int d) : owner(o), p(pp), direct(d) { m.k = 0; }
+    int key() const { if (direct >= 0) return direct; return p == 0 ? (owner->hask_(0) ? 0 : 1) : 1; }
+    bool live() const { if (direct >= 0) return true; return p < NKEY && p < (int)owner->size(); }
+    mj_member& operator*() const { int k = key(); if (k == 0) { m.k = 0; m.val = owner->sub_(0); } else { m.k = 1; m.val = owner->sub_(1); } return m; }
+    iter& operator++() { ++p; return *this; }
+    bool operator!=(const iter& o) const { return live() != o.live() || (live() && o.live() && key() != o.key()); }
+    bool operator==(const iter& o) const { return !(*this != o); } };
 struct MJ::range { MJ::iter b, e; MJ::iter begin() const { return b; } MJ::iter end() const { return e; } };
-inline MJ::range MJ::object_range() const { iter b{this, 0}; b.skip(); return range{b, iter{this, NKEY}}; }
-inline MJ::iter MJ::find(int key) const { if (hask(key)) return iter{this, key}; return iter{this, NKEY}; }
-inline void MJ::erase(const iter& it) { if (is_object()) { if (it.k == 0) f[0][2] = 0; else if (it.k == 1) f[0][3] = 0; } }
+inline MJ::range MJ::object_range() const { return range{iter{this, 0, -1}, iter{this, NKEY, -1}}; }
+inline MJ::iter MJ::find(int key) const { if (hask(key)) return iter{this, 0, key}; return iter{this, NKEY, -1}; }
+inline void MJ::erase(const iter& it) { if (is_object() && it.live()) { if (it.key() == 0) f[0][2] = 0; else f[0][3] = 0; } }
 struct fnode { unsigned char kind, val, has[NKEY]; };
 static void build(MJ& j, const fnode* f) { for (unsigned i = 0; i < NN; ++i) { j.f[i][0] = f[i].kind; j.f[i][1] = f[i].val; j.f[i][2] = f[i].has[0]; j.f[i][3] = f[i].has[1]; } }
 // canonical dump: unreachable positions zero
